@@ -16,6 +16,7 @@ static unsigned w_prop_bit(const char *id) { return !strcmp(id, "C01") ? PC01 : 
 struct elem { long pad; int key; int idx; struct cstl_rbtree_node rn; long tail; struct cstl_rbtree_node rn2; };      /* rn2: where the OTHER tree object's elements would keep their node; never linked */
 static struct elem pool[MAXN];
 static int N, keys[MAXN], nkeys_alpha, key_alpha[MAXN + 2];
+static int USE_MACRO;   /* odd configurations build the tree with CSTL_RBTREE_INITIALIZER / CSTL_BINTREE_INITIALIZER instead of the init function */
 static int RB, CMPMODE;       /* 0 difference, 1 sign only, 2 reversed */
 static char cfgdesc[256];
 static union { struct cstl_bintree bt; struct cstl_rbtree rb; } T[2];
@@ -55,7 +56,7 @@ static void w_setup(int cfg, int thorough)
 {
     int n, i, k;
     const struct cfg *c = &cfgs(thorough, &n)[cfg];
-    RB = c->rb; N = c->n; CMPMODE = c->cmp;
+    RB = c->rb; N = c->n; CMPMODE = c->cmp; USE_MACRO = cfg & 1;
     for (i = 0; i < N; i++) {
         if (!strcmp(c->pool, "distinct")) keys[i] = (i * 5) % N;        /* a permutation: pool order is not key order */
         else if (!strcmp(c->pool, "paired")) keys[i] = i / 2;
@@ -69,6 +70,7 @@ static void w_setup(int cfg, int thorough)
     key_alpha[nkeys_alpha++] = -7;      /* an absent key, smaller than all */
     snprintf(cfgdesc, sizeof cfgdesc, "%s, pool of %d elements with %s keys, comparator %s", RB ? "cstl_rbtree" : "cstl_bintree", N, c->pool,
              CMPMODE == 0 ? "a-b" : CMPMODE == 1 ? "sign only" : CMPMODE == 2 ? "reversed" : "INT_MIN/0/INT_MAX");
+    if (USE_MACRO) snprintf(cfgdesc + strlen(cfgdesc), sizeof cfgdesc - strlen(cfgdesc), ", object built with the static initialiser macro");
     w_nops = 0;
     for (i = 0; i < N; i++) { w_ops[w_nops++] = OP(O_INS, i); w_ops[w_nops++] = OP(O_INS_HINT, i); }
     for (k = 0; k < nkeys_alpha; k++) w_ops[w_nops++] = OP(O_ERASE_KEY, k);
@@ -100,6 +102,14 @@ static void t_init(int t)
     if (RB) cstl_rbtree_init(&T[t].rb, cmp_elem, &cookie[0], offsetof(struct elem, rn));
     else cstl_bintree_init(&T[t].bt, cmp_elem, &cookie[0], offsetof(struct elem, rn) + offsetof(struct cstl_rbtree_node, n));
 }
+/* the tree under test: odd configurations use the static initialiser (what DECLARE_CSTL_RBTREE / DECLARE_CSTL_BINTREE expand to) */
+static void t_build(int t)
+{
+    if (!USE_MACRO) { t_init(t); return; }
+    memset(&T[t], 0xA5, sizeof T[t]);
+    if (RB) T[t].rb = (struct cstl_rbtree)CSTL_RBTREE_INITIALIZER(struct elem, rn, cmp_elem, &cookie[0]);
+    else T[t].bt = (struct cstl_bintree)CSTL_BINTREE_INITIALIZER(struct elem, rn.n, cmp_elem, &cookie[0]);
+}
 /* the second object is a tree of another kind: other comparator, other private pointer, node at another offset */
 static void t_init_other(int t)
 {
@@ -128,7 +138,7 @@ static void w_init(void)
     memset(pool, 0x5A, sizeof pool);
     for (i = 0; i < N; i++) { pool[i].key = keys[i]; pool[i].idx = i; pool[i].pad = 0x1111; pool[i].tail = 0x2222; m_member[i] = 0; }
     m_count = 0; wrong_priv = wrong_cmp = 0;
-    t_init(0); t_init_other(1);
+    t_build(0); t_init_other(1);
 }
 
 static int w_enabled(mc_op_t o)
